@@ -934,11 +934,14 @@ func (e *lsEnv) step(c lsCmd, which string, history []string) (res lsStepResult)
 			vfOracleFail("preview-mutates-index-dir:"+kind+":"+strings.SplitN(d[0], ":", 2)[0]+"[second-preview]",
 				"the preview run after the forced run changed the index directory", rp2(map[string]any{"diff": d}))
 		}
-		if !c.remove && fsx == 0 {
+		if !c.remove && (fsx == 0 || fsx == 5) { // 5: some repositories could not be indexed; the run went on with the others
 			wr2, wi2 := lsNames(dry2, "would-remove"), lsNames(dry2, "would-index")
-			if len(wr2)+len(wi2) > 0 || ds2 != 0 {
-				vfOracleFail("sync:second-preview-announces-work",
-					"after a successful sync -f the same command without -f still announces removals or indexing (or fails): sync -f is not idempotent",
+			if len(wr2)+len(wi2) > 0 || ds2 != fsx {
+				key, what := "sync:second-preview-announces-work", "after a successful sync -f"
+				if fsx == 5 {
+					key, what = key+"[after-index-failures]", "after a sync -f that pruned and indexed what it could (some repositories cannot be indexed)"
+				}
+				vfOracleFail(key, what+" the same command without -f still announces removals or indexing (or ends differently): sync -f is not idempotent",
 					rp2(map[string]any{"would_remove": wr2, "would_index": wi2, "second_preview_status": ds2}))
 			}
 			// and it reports exactly the repositories the forced run worked on
@@ -949,7 +952,7 @@ func (e *lsEnv) step(c lsCmd, which string, history []string) (res lsStepResult)
 				}
 			}
 			sort.Strings(worked)
-			if utd2 := lsNames(dry2, "up-to-date"); ds2 == 0 && len(wi2) == 0 && !lsEq(utd2, worked) {
+			if utd2 := lsNames(dry2, "up-to-date"); fsx == 0 && ds2 == 0 && len(wi2) == 0 && !lsEq(utd2, worked) {
 				vfOracleFail("sync:second-preview-up-to-date-set-differs",
 					"the repositories reported Up to date after sync -f are not those the forced run indexed or found up to date",
 					rp2(map[string]any{"up_to_date": utd2, "forced_run_repositories": worked}))
@@ -1483,25 +1486,7 @@ func (e *lsEnv) mutate(history *[]string) {
 		e.writeURL(e.w+c, e.repos[c])
 		note("update %s ver=%d", c, ver)
 	case k < 82: // metadata change only (zoekt.web-url; no new commit): IndexStateMeta for a repository that is in the index
-		c := ex[e.r.Intn(len(ex))]
-		var indexed []string // prefer a repository the index currently holds, and sync its root next
-		for _, sh := range e.readInv() {
-			if rp := e.repos[normalizeSourceOracle(sh.source)]; rp != nil && !sh.bad && (rp.kind == "work" || rp.kind == "bare") {
-				indexed = append(indexed, normalizeSourceOracle(sh.source))
-			}
-		}
-		if len(indexed) > 0 && e.r.Chance(80) {
-			c = indexed[e.r.Intn(len(indexed))]
-		}
-		rp := e.repos[c]
-		rp.url = (rp.url + 1 + e.r.Intn(2)) % 3
-		e.writeURL(e.w+c, rp)
-		note("url %s -> %d", c, rp.url)
-		if segs := lsSegs(c); len(segs) >= 1 && e.wantRoots == nil {
-			root := "/" + segs[0]
-			other := map[string]string{"/r1": "/r2", "/r2": "/r1", "/r3.git": "/r1"}[root]
-			e.wantRoots = e.r.Pick3([]string{root, other}, []string{other, root}, []string{root})
-		}
+		e.metaChange(ex, note)
 	case k < 90: // delete
 		c := ex[e.r.Intn(len(ex))]
 		os.RemoveAll(e.w + c)
@@ -1529,6 +1514,33 @@ func (e *lsEnv) mutate(history *[]string) {
 			os.MkdirAll(e.w+root+"/plain/objects", 0o755)
 			note("clutter plain/objects in %s", root)
 		}
+	}
+}
+
+// metaChange: zoekt.web-url of one repository changes (no new commit) — preferably a repository the index currently
+// holds — and the next sync preferably uses its root.
+func (e *lsEnv) metaChange(ex []string, note func(f string, a ...any)) {
+	if len(ex) == 0 {
+		return
+	}
+	c := ex[e.r.Intn(len(ex))]
+	var indexed []string // prefer a repository the index currently holds, and sync its root next
+	for _, sh := range e.readInv() {
+		if rp := e.repos[normalizeSourceOracle(sh.source)]; rp != nil && !sh.bad && (rp.kind == "work" || rp.kind == "bare") {
+			indexed = append(indexed, normalizeSourceOracle(sh.source))
+		}
+	}
+	if len(indexed) > 0 && e.r.Chance(80) {
+		c = indexed[e.r.Intn(len(indexed))]
+	}
+	rp := e.repos[c]
+	rp.url = (rp.url + 1 + e.r.Intn(2)) % 3
+	e.writeURL(e.w+c, rp)
+	note("url %s -> %d", c, rp.url)
+	if segs := lsSegs(c); len(segs) >= 1 && e.wantRoots == nil {
+		root := "/" + segs[0]
+		other := map[string]string{"/r1": "/r2", "/r2": "/r1", "/r3.git": "/r1"}[root]
+		e.wantRoots = e.r.Pick3([]string{root, other}, []string{other, root}, []string{root})
 	}
 }
 
@@ -1665,6 +1677,9 @@ func lsRun(t *testing.T, which string, n int) {
 		}
 		if e.r.Chance(60) { // start most histories from an index that is up to date for some root set (set-up, not a case)
 			pre := lsCmd{roots: e.pickRoots()}
+			if which == "C33" && e.r.Chance(35) { // with a tiny shard limit: the bigger repositories occupy several shard files
+				pre.extra = []string{"-shard_limit=4000"}
+			}
 			e.exec(pre, true)
 			history = append(history, "setup: "+strings.Join(e.args(pre, true), " "))
 		}
@@ -1692,7 +1707,10 @@ func lsRun(t *testing.T, which string, n int) {
 						multi = append(multi, c)
 					}
 				}
-				if len(multi) > 0 && e.r.Chance(60) {
+				if len(multi) == 0 && e.r.Chance(12) { // a metadata-only change of an indexed repository (IndexStateMeta), then sync its root
+					e.metaChange(e.existing(), func(f string, a ...any) { history = append(history, fmt.Sprintf(f, a...)) })
+				}
+				if len(multi) > 0 && e.r.Chance(55) {
 					c := multi[e.r.Intn(len(multi))]
 					if segs := lsSegs(c); e.r.Chance(50) || len(segs) < 2 {
 						os.RemoveAll(e.w + c)
@@ -1765,7 +1783,7 @@ func lsRun(t *testing.T, which string, n int) {
 				if e.r.Chance(8) {
 					c.extra = []string{"-file_limit=100000"} // another IndexOptions hash: everything is stale
 				}
-				if e.r.Chance(map[string]int{"C33": 18}[which] + 10*map[string]int{"C34": 1}[which]) { // a forced sync with a tiny shard limit first: multi-shard repositories (set-up, not a case)
+				if e.r.Chance(map[string]int{"C33": 30, "C34": 10}[which]) { // a forced sync with a tiny shard limit first: multi-shard repositories (set-up, not a case)
 					pre := c
 					pre.extra = append([]string{"-shard_limit=4000"}, c.extra...)
 					e.exec(pre, true)
